@@ -138,6 +138,9 @@ pub struct Gen {
     cyc: BTreeMap<String, u64>,
     /// Keep values small (C15 corpus): no long strings, short collections.
     pub small: bool,
+    /// How many collections of the value being generated may still take a
+    /// boundary size (255, 256, 257, ... items); set by the caller per value.
+    pub boundary_budget: u32,
 }
 
 impl Gen {
@@ -147,6 +150,7 @@ impl Gen {
             cov: BTreeMap::new(),
             cyc: BTreeMap::new(),
             small: false,
+            boundary_budget: 0,
         }
     }
 
@@ -399,6 +403,13 @@ impl Gen {
 
     fn count_range(&mut self, max_small: u64, max_big: u64) -> usize {
         let big = if self.small { max_small } else { max_big };
+        // sizes around the 256 cap of the decoders' pre-allocation and beyond u8
+        if !self.small && self.boundary_budget > 0 && self.rng.chance(1, 6) {
+            self.boundary_budget -= 1;
+            let n = *self.rng.pick(&[255usize, 256, 257, 258, 300, 513, 1024]);
+            self.var("collection_size", if n > 256 { "boundary_above_256" } else { "boundary_255_256" });
+            return n;
+        }
         match self.rng.weighted(&[3, 8, 1]) {
             0 => 0,
             1 => self.rng.range(1, max_small) as usize,
@@ -775,6 +786,9 @@ impl Gen {
                 let mut items = HashMap::new();
                 for _ in 0..n {
                     items.insert(self.string(), self.secret_string());
+                }
+                if items.len() > 256 {
+                    self.var("Secret::List", "items>256");
                 }
                 Secret::List { items, user_data }
             }
